@@ -40,3 +40,20 @@ Definition check (a : args_t) (e : exp_t) : bool :=
 
 Definition case_t_lm : Type := (N * args_t * exp_t)%type.
 Definition check_lm := check.
+
+(** Group [prune]: the pruning decision itself.  One token (the first code token at the start index:
+    interned upper-cased raw and class types; [None]: no code token stands there), a table of real
+    options (cache key, recorded first-token hint) and several option lists given by positions in
+    the table; expected: for every list the positions of the options the real [prune_options]
+    returned, in the order returned.  The model is [Cache.Model.prune] (= [filter] by [keep]). *)
+Definition pargs_t : Type :=
+  (option (N * list N) * list (N * option (list N * list N)) * list (list N))%type.
+Definition pexp_t : Type := list (list N).
+Definition model_prune (a : pargs_t) : pexp_t :=
+  let '(tok, table, lists) := a in
+  let hint_of (i : N) := match nth_error table (N.to_nat i) with Some (_, h) => h | None => None end in
+  map (fun l => prune N hint_of true tok l) lists.
+Definition check_prune_args (a : pargs_t) (e : pexp_t) : bool :=
+  list_eqb (list_eqb N.eqb) (model_prune a) e.
+Definition case_t_prune : Type := (N * pargs_t * pexp_t)%type.
+Definition check_prune := check_prune_args.
